@@ -407,7 +407,7 @@ def execute(case):
         vclock.run(main, backend=case["backend"], seed=case.get("seed", 0), shuffle=case.get("shuffle", False))
     except BaseException as e:  # noqa: BLE001
         events.append({"ev": "crash", "what": repr(e)[:200]})
-    p = {k: prog[k] for k in ("n", "par", "hp", "hs", "paths", "timeout", "acyclic")}
+    p = {k: prog[k] for k in ("n", "par", "hp", "hs", "paths", "timeout", "acyclic", "fail")}
     return {"id": case["id"], "prog": p, "events": events}
 
 
